@@ -9,7 +9,7 @@ open Spec
 
 /-- Gold: rabbit a7, elephant d5, horse c3 (on a trap, held by the cat), cat c2.
 Silver: rabbit c5 (frozen by the elephant), rabbit h2. -/
-def exBoard : Spec.Board := fun k =>
+def exBoardSym : Spec.Board := fun k =>
   if k = 8 then some ⟨true, .rabbit⟩
   else if k = 26 then some ⟨false, .rabbit⟩
   else if k = 27 then some ⟨true, .elephant⟩
@@ -52,10 +52,10 @@ theorem exModel_playInv (b : Board) (g : Bool) (hw : WF b) :
     PlayInv (exModelState b g) (PlayPhase.initial 0 []) :=
   ⟨rfl, hw, trivial, by decide⟩
 
-theorem exModel_abs : absBoard exModelBoard = exBoard := by
+theorem exModel_abs : absBoard exModelBoard = exBoardSym := by
   funext k
   by_cases hk : k < 64
-  · have : ∀ j : Fin 64, absBoard exModelBoard j = exBoard j := by decide +kernel
+  · have : ∀ j : Fin 64, absBoard exModelBoard j = exBoardSym j := by decide +kernel
     exact this ⟨k, hk⟩
   · rw [absBoard_ge _ k (by omega)]
     have h1 : ¬ k = 8 := by omega
@@ -64,7 +64,7 @@ theorem exModel_abs : absBoard exModelBoard = exBoard := by
     have h4 : ¬ k = 42 := by omega
     have h5 : ¬ k = 50 := by omega
     have h6 : ¬ k = 55 := by omega
-    simp only [exBoard, h1, h2, h3, h4, h5, h6, if_false]
+    simp only [exBoardSym, h1, h2, h3, h4, h5, h6, if_false]
 
 /-- the hypotheses `PlayInv`, `PlayInv`, `SymRel` of `C11_impl_offered_all`, `C11_impl_step`,
 `C11_impl_game`, `C11_impl_result` hold for the example position and each of its three images -/
